@@ -102,7 +102,7 @@ func (j *junk) term(d int) string {
 	case 6:
 		return fmt.Sprintf("<%s, %s> <- recv %s; %s", j.pick(j.names), j.pick(j.names), j.name(), j.term(d-1))
 	case 7:
-		n := 1 + j.intn(3)
+		n := j.intn(4) // 0: `case x ()`, which the grammar accepts
 		var bs []string
 		for i := 0; i < n; i++ {
 			bs = append(bs, fmt.Sprintf("%s<%s> => %s", j.pick(junkLabels), j.pick(j.names), j.term(d-1)))
@@ -148,10 +148,15 @@ func JunkProgram(intn func(int) int) string {
 		j.funs = append(j.funs, fmt.Sprintf("f%d", i))
 	}
 	for i := 0; i < nf; i++ {
-		np := intn(3)
+		np := intn(5)
 		var ps []string
+		same := j.pick(j.names)
 		for k := 0; k < np; k++ {
-			ps = append(ps, j.pick(j.names)+" : "+j.ty())
+			n := j.pick(j.names)
+			if np >= 3 && intn(3) == 0 {
+				n = same // the same name three or four times in one list
+			}
+			ps = append(ps, n+" : "+j.ty())
 		}
 		if intn(5) == 1 {
 			fmt.Fprintf(&sb, "let f%d[%s] = %s\n", i, strings.Join(append([]string{"w : " + j.ty()}, ps...), ", "), j.term(3))
@@ -160,7 +165,12 @@ func JunkProgram(intn func(int) int) string {
 		}
 	}
 	if intn(6) == 1 {
-		fmt.Fprintf(&sb, "assuming %s : %s\n", j.pick(j.names), j.ty())
+		a := j.pick(j.names)
+		fmt.Fprintf(&sb, "assuming %s : %s", a, j.ty())
+		if intn(3) == 1 {
+			fmt.Fprintf(&sb, ", %s : %s, %s : %s", a, j.ty(), []string{a, j.pick(j.names)}[intn(2)], j.ty())
+		}
+		sb.WriteString("\n")
 	}
 	np := 1 + intn(3)
 	for i := 0; i < np; i++ {
@@ -178,6 +188,11 @@ func JunkProgram(intn func(int) int) string {
 		prov := j.pick(j.names)
 		if intn(6) == 1 {
 			prov += ", " + j.pick(j.names)
+			if intn(3) == 1 {
+				// three or four providers, some of them the same name
+				first := strings.Split(prov, ",")[0]
+				prov += ", " + first + ", " + []string{first, j.pick(j.names)}[intn(2)]
+			}
 		}
 		fmt.Fprintf(&sb, "prc[%s] : %s = %s\n", prov, j.ty(), j.term(3))
 	}
